@@ -580,6 +580,30 @@ impl Property for C18 {
         obs.label(if c.int { "scalar:i32" } else { "scalar:f64" });
         if c.int {
             run::<i32>(c, obs, &|v| v as i32, "i32");
+            // unsigned rings with the first coordinate below the last: is_closed / close must not compute differences
+            for op in &c.ops {
+                if let Op::New { ext, .. } = op {
+                    if ext.len() >= 2 {
+                        let v: Vec<Coord<u32>> = ext.iter().map(|p| Coord { x: (p.0 as i32 + 200) as u32, y: (p.1 as i32 + 200) as u32 }).collect();
+                        let r = guard(std::panic::AssertUnwindSafe(|| {
+                            let ls = LineString::new(v.clone());
+                            let mut closed = ls.clone();
+                            closed.close();
+                            (ls.is_closed(), closed, Polygon::new(ls.clone(), vec![]))
+                        }));
+                        obs.cmp();
+                        match r {
+                            Ok((isc, closed, p)) => {
+                                let want = v.first() == v.last();
+                                if isc != want || !closed.is_closed() || closed.0.len() != v.len() + (!want) as usize || p.exterior().0.first() != p.exterior().0.last() {
+                                    obs.fail("u32|is_closed/close|wrong".to_string(), format!("{:?} -> is_closed {isc} close() {:?}", v, closed.0));
+                                }
+                            }
+                            Err(pn) => obs.fail(format!("u32|is_closed/close|panic|{}", pn.site()), format!("{} {:?}", pn, v)),
+                        }
+                    }
+                }
+            }
             // integer Rects far from the origin (min + max does not fit the type, the width does): two proper halves
             for op in &c.ops {
                 if let Op::RectNew(a, b) = op {
@@ -601,6 +625,30 @@ impl Property for C18 {
             }
         } else {
             run::<f64>(c, obs, &|v| v as f64 * 0.5, "f64");
+            // rings whose ends are distinct but extremely close (products of the differences underflow): still open, and closed by
+            // every constructor
+            for op in &c.ops {
+                if let Op::New { ext, .. } = op {
+                    if ext.len() >= 2 {
+                        let mut v: Vec<Coord<f64>> = ext.iter().map(|p| Coord { x: p.0 as f64 * 0.5, y: p.1 as f64 * 0.5 }).collect();
+                        let f = v[0];
+                        let tiny = if f.x == 0.0 { 1e-300 } else { f.x * (1.0 + f64::EPSILON) };
+                        *v.last_mut().unwrap() = Coord { x: tiny, y: f.y };
+                        if v[0] != *v.last().unwrap() {
+                            let ls = LineString::new(v.clone());
+                            obs.cmp();
+                            let mut closed = ls.clone();
+                            closed.close();
+                            let p = Polygon::new(ls.clone(), vec![ls.clone()]);
+                            let ok = !ls.is_closed() && closed.0.len() == v.len() + 1 && closed.is_closed() && p.exterior().0.len() == v.len() + 1 && p.exterior().0.first() == p.exterior().0.last() && p.interiors()[0].0.first() == p.interiors()[0].0.last();
+                            if !ok {
+                                obs.fail("f64|is_closed/close|ends-distinct-by-an-ulp".to_string(), format!("{:?} -> is_closed {} close() {:?}", v, ls.is_closed(), closed.0));
+                            }
+                            obs.label("ring:ends-distinct-by-an-ulp");
+                        }
+                    }
+                }
+            }
             // far from the origin (the sum min + max would overflow / be infinite, the width does not): still two proper halves
             for op in &c.ops {
                 if let Op::RectNew(a, b) = op {
